@@ -1,5 +1,6 @@
 import ScriggoV.Lemmas.ShowValueParse
 import ScriggoV.Lemmas.ShowValueTags
+import ScriggoV.Lemmas.ShowValueTime
 /-! C08 helper lemmas, part 4: the induction on the value. For every well-shaped value with
 finite floats the model of showInJS / showInJSON returns a text (no panic) that the decoder of
 `Spec/JSON.lean` takes to `absScriggo` of the value, wherever a value may stand
@@ -10,22 +11,55 @@ open ScriggoV ScriggoV.JSON ScriggoV.Gen.ShowJS
 /-! ### hypotheses -/
 
 mutual
-/-- every float below is finite (DESIGN §8 row 19 is what happens otherwise) -/
-def finiteFloats : GoVal → Bool
-  | .float _ c _ _ => c == .finite
-  | .verb _ _ inner => finiteFloats inner
-  | .err _ inner => finiteFloats inner
-  | .iface v => finiteFloats v
-  | .slice _ es => finiteFloatsL es
-  | .array es => finiteFloatsL es
-  | .map _ _ vs => finiteFloatsL vs
-  | .struct _ vs => finiteFloatsL vs
-  | .ptr _ _ e => finiteFloats e
+/-- every float below is finite — in JavaScript NaN is allowed too (`NaN` is an expression
+there); DESIGN §8 row 19 is what happens otherwise -/
+def floatsOK (m : Mode) : GoVal → Bool
+  | .float _ c _ _ => c == .finite || (m.isJS && c == .nan)
+  | .verb _ _ inner => floatsOK m inner
+  | .err _ inner => floatsOK m inner
+  | .iface v => floatsOK m v
+  | .slice _ es => floatsOKL m es
+  | .array es => floatsOKL m es
+  | .map _ _ vs => floatsOKL m vs
+  | .struct _ vs => floatsOKL m vs
+  | .ptr _ _ e => floatsOK m e
   | _ => true
-def finiteFloatsL : List GoVal → Bool
+def floatsOKL (m : Mode) : List GoVal → Bool
   | [] => true
-  | v :: vs => finiteFloats v && finiteFloatsL vs
+  | v :: vs => floatsOK m v && floatsOKL m vs
 end
+
+/-- the key is one the key loop can stringify, and its kind fits its constructor -/
+def keyOK : GoKey → Bool
+  | .int k _ => isIntKind k
+  | .uint k _ => isUintKind k
+  | .float k _ => isFloatKind k
+  | .complex k _ => k == .complex64 || k == .complex128
+  | .other _ => false
+  | _ => true
+
+/-- the key loop (type switch, then toString through its regenerated kind switch) spells a key
+as the specification says -/
+theorem keyString_eq (k : GoKey) (h : keyOK k = true) : keyString k = .ok (keySpec k) := by
+  cases k with
+  | stringer s => rfl
+  | envStringer s => rfl
+  | bool b => cases b <;> rfl
+  | int k i => cases k <;> first | rfl | (simp [keyOK, isIntKind] at h)
+  | uint k n => cases k <;> first | rfl | (simp [keyOK, isUintKind] at h)
+  | float k d => cases k <;> first | rfl | (simp [keyOK, isFloatKind] at h)
+  | str s => rfl
+  | complex k t => cases k <;> first | rfl | (simp [keyOK] at h)
+  | other k => simp [keyOK] at h
+
+theorem keyStrings_eq (ks : List GoKey) (h : ks.all keyOK = true) :
+    keyStrings ks = .ok (ks.map keySpec) := by
+  induction ks with
+  | nil => rfl
+  | cons k ks ih =>
+    simp only [List.all_cons, Bool.and_eq_true] at h
+    rw [keyStrings, keyString_eq k h.1, ih h.2]
+    rfl
 
 mutual
 /-- the description is one reflect can give, and the parameters behave as assumed:
@@ -33,7 +67,9 @@ mutual
 * **assumption on strconv.FormatFloat**: the digits of a *finite* float are an RFC 8259 number;
 * what an envelope type (`native.JS`, `JSON()` …) yields is itself a text for some data in the
   context it is used in;
-* the formatted time strings contain no quote, backslash or control byte;
+* in JS a time's year is within ±999999 (showTimeInJS panics otherwise); every map key is of a
+  kind `toString` has a case for, with a kind that fits its constructor (`keyOK`);
+* **assumption on strconv.FormatFloat**: NaN is spelled `NaN`;
 * a non-nil pointer is not an `unsafe.Pointer` (that panics: finding `unsafe-pointer-host-panic`);
 * in JS the `%s` of an unrepresentable type contains no `*/` (finding
   `js-undefined-comment-not-escaped`). -/
@@ -44,20 +80,22 @@ def Shaped (m : Mode) : GoVal → Prop
     (match (if m.isJS then js else json) with
      | some raw => ∃ d, ParsesTo m.isJS raw d
      | none => Shaped m inner)
-  | .time js json => (if m.isJS then js else json).all plain = true
+  | .time t => m.isJS = true → jsYearMin ≤ t.year ∧ t.year ≤ jsYearMax
   | .err _ inner => KindOK inner = true
   | .iface v => Shaped m v
   | .bool _ => True
   | .int k _ => isIntKind k = true
   | .uint k _ => isUintKind k = true
-  | .float k c _ digits => isFloatKind k = true ∧ (c = .finite → isNumber digits = true)
+  | .float k c _ digits =>
+    isFloatKind k = true ∧ (c = .finite → isNumber digits = true) ∧ (c = .nan → digits = kwNaN)
   | .str _ => True
   | .bytes _ _ => True
+  | .nbytes _ _ => True
   | .slice _ es => ShapedL m es
   | .array es => ShapedL m es
   | .ptr u isNil e => isNil = true ∨ (u = false ∧ Shaped m e)
   | .struct fs vs => fs.length = vs.length ∧ ShapedL m vs
-  | .map isNil ks vs => isNil = true ∨ (ks.length = vs.length ∧ ShapedL m vs)
+  | .map isNil ks vs => isNil = true ∨ (ks.length = vs.length ∧ ks.all keyOK = true ∧ ShapedL m vs)
   | .other k name => isOtherKind k = true ∧ (m.isJS = true → noCE name = true)
 def ShapedL (m : Mode) : List GoVal → Prop
   | [] => True
@@ -75,6 +113,7 @@ theorem branch_pointer : m.branch .pointer = .pointer := by cases m <;> rfl
 theorem branch_unsafePointer : m.branch .unsafePointer = .pointer := by cases m <;> rfl
 theorem branch_struct : m.branch .struct = .struct := by cases m <;> rfl
 theorem branch_map : m.branch .map = .map := by cases m <;> rfl
+theorem branch_uint8 : m.branch .uint8 = .uint := by cases m <;> rfl
 theorem branch_int (k : RKind) (h : isIntKind k = true) : m.branch k = .int := by
   cases m <;> cases k <;> first | rfl | exact absurd h (by decide)
 theorem branch_uint (k : RKind) (h : isUintKind k = true) : m.branch k = .uint := by
@@ -110,7 +149,6 @@ theorem lit_mapColon : m.lits.mapColon = [0x22, 0x3A] := by cases m <;> rfl
 end tables
 
 theorem lit_json_time : Mode.json.lits.timeOpen = [0x22] ∧ Mode.json.lits.timeClose = [0x22] := ⟨rfl, rfl⟩
-theorem lit_js_time : Mode.js.lits.timeOpen = kwNewDate ∧ Mode.js.lits.timeClose = [0x22, 0x29] := ⟨rfl, rfl⟩
 theorem lit_json_default : Mode.json.lits.defaultShowsType = false ∧ Mode.json.lits.defaultPrefix = kwNull := ⟨rfl, rfl⟩
 
 /-- the comment of the JS default branch: ` scriggo: cannot represent a ` … ` value ` -/
@@ -325,8 +363,8 @@ theorem zip3 (js : Bool) (ks : List Bytes) (rs : List Bytes) (ds : List Data)
 
 /-! ### the induction -/
 
-/-- Scriggo's own reading of its output: `abs` without the two encoding/json clauses -/
-abbrev cfgS : AbsCfg := ⟨false, false⟩
+/-- Scriggo's own reading of its output: `abs` without the encoding/json clauses -/
+abbrev cfgS : Bool := false
 
 theorem kt_eq : (Triple.kt : Triple → Bytes × Bytes) = fun q => (q.1, Prod.fst q.2) := rfl
 theorem kd_eq : (Triple.kd : Triple → Bytes × Data) = fun q => (q.1, Prod.snd q.2) := rfl
@@ -337,8 +375,18 @@ theorem quoted_eq (m : Mode) (s : Bytes) : quoted m.lits s = 0x22 :: jsStrEsc s 
 theorem ok_bind {α β : Type} (a : α) (f : α → Except Fault β) :
     (Except.ok a >>= f) = f a := rfl
 
+/-- with `std = false` an embedded struct is an ordinary field -/
+theorem absFields_scriggo_cons (m : Mode) (f : Field) (fs : List Field) (v : GoVal) (vs : List GoVal) :
+    absFields false m (f :: fs) (v :: vs) =
+      match fieldName false f v with
+      | none => absFields false m fs vs
+      | some name => (name, abs false m v) :: absFields false m fs vs := by
+  rw [absFields.eq_def]
+  simp
+  cases fieldName false f v <;> rfl
+
 mutual
-theorem showV_parses (m : Mode) : ∀ (v : GoVal), Shaped m v → finiteFloats v = true →
+theorem showV_parses (m : Mode) : ∀ (v : GoVal), Shaped m v → floatsOK m v = true →
     ∃ s, showV m v = .ok s ∧ ParsesTo m.isJS s (abs cfgS m v)
   | .nil, _, _ => by
     refine ⟨kwNull, ?_, ?_⟩
@@ -346,7 +394,7 @@ theorem showV_parses (m : Mode) : ∀ (v : GoVal), Shaped m v → finiteFloats v
     · rw [abs]; exact parsesTo_null _
   | .verb js json inner, h, hf => by
     rw [Shaped] at h
-    rw [finiteFloats] at hf
+    rw [floatsOK] at hf
     rw [showV, abs]
     generalize (if m.isJS = true then js else json) = sel at h ⊢
     cases sel with
@@ -356,20 +404,20 @@ theorem showV_parses (m : Mode) : ∀ (v : GoVal), Shaped m v → finiteFloats v
       refine ⟨raw, rfl, ?_⟩
       simp only [hd.top, Option.getD_some]
       exact hd
-  | .time js json, h, _ => by
+  | .time t, h, _ => by
     rw [Shaped] at h
     rw [showV, abs]
     cases m with
     | js =>
-      refine ⟨_, rfl, ?_⟩
       simp only [Mode.isJS, if_true] at h ⊢
-      rw [lit_js_time.1, lit_js_time.2]
-      exact parsesTo_date js h
+      obtain ⟨h1, h2⟩ := h trivial
+      refine ⟨_, showTimeInJS_eq t h1 h2, ?_⟩
+      exact parsesTo_date (ecmaDate t) (ecmaDate_plain t)
     | json =>
       refine ⟨_, rfl, ?_⟩
-      simp only [Mode.isJS, Bool.false_eq_true, if_false] at h ⊢
+      simp only [Mode.isJS, Bool.false_eq_true, if_false, cfgS]
       rw [lit_json_time.1, lit_json_time.2]
-      exact parsesTo_str false json json (fun rest => parseStr_plain_all json rest h)
+      exact parsesTo_str false _ _ (fun rest => parseStr_plain_all _ rest (fmtRFC3339_plain t))
   | .err msg inner, _, _ => by
     rw [showV, abs, branch_string]
     refine ⟨_, rfl, ?_⟩
@@ -377,7 +425,7 @@ theorem showV_parses (m : Mode) : ∀ (v : GoVal), Shaped m v → finiteFloats v
     exact parsesTo_str _ _ msg (parseStr_jsStrEsc msg)
   | .iface v, h, hf => by
     rw [Shaped] at h
-    rw [finiteFloats] at hf
+    rw [floatsOK] at hf
     rw [showV, abs]
     exact showV_parses m v h hf
   | .bool b, _, _ => by
@@ -396,12 +444,15 @@ theorem showV_parses (m : Mode) : ∀ (v : GoVal), Shaped m v → finiteFloats v
     exact ⟨_, rfl, parsesTo_num _ _ (isNumber_natDigits n) (natDigits_all_numChar n)⟩
   | .float k c z digits, h, hf => by
     rw [Shaped] at h
-    rw [finiteFloats] at hf
-    have hc : c = .finite := by simpa using hf
-    have hn := h.2 hc
+    rw [floatsOK] at hf
     rw [showV, abs]
-    rcases branch_float m k h.1 with hb | hb <;> rw [hb] <;>
-      exact ⟨_, rfl, parsesTo_num _ _ hn (isNumber_numChar _ hn)⟩
+    have hp : ParsesTo m.isJS digits (.num digits) := by
+      simp only [Bool.or_eq_true, Bool.and_eq_true, beq_iff_eq] at hf
+      rcases hf with hc | ⟨hj, hc⟩
+      · have hn := h.2.1 hc
+        exact parsesTo_num _ _ hn (isNumber_numChar _ hn)
+      · rw [h.2.2 hc, hj]; exact parsesTo_nan
+    rcases branch_float m k h.1 with hb | hb <;> rw [hb] <;> exact ⟨_, rfl, hp⟩
   | .str s, _, _ => by
     rw [showV, abs, branch_string]
     refine ⟨_, rfl, ?_⟩
@@ -410,11 +461,11 @@ theorem showV_parses (m : Mode) : ∀ (v : GoVal), Shaped m v → finiteFloats v
   | .bytes isNil b, _, _ => by
     rw [showV, abs, branch_slice]
     refine ⟨_, rfl, ?_⟩
-    simp only [Bool.false_and, Bool.false_eq_true, if_false]
+    simp only [cfgS, Bool.false_and, Bool.false_eq_true, if_false]
     exact parsesTo_str _ (base64 b) (base64 b) (fun rest => parseStr_plain_all _ rest (base64_plain b))
   | .slice isNil es, h, hf => by
     rw [Shaped] at h
-    rw [finiteFloats] at hf
+    rw [floatsOK] at hf
     rw [showV, abs, branch_slice]
     cases isNil with
     | true =>
@@ -438,9 +489,35 @@ theorem showV_parses (m : Mode) : ∀ (v : GoVal), Shaped m v → finiteFloats v
           intro e; subst e; rw [absList] at h2; exact h2
         have := parsesTo_arr m.isJS rs _ h2 hne
         simpa using this
+  | .nbytes isNil b, _, _ => by
+    rw [showV, abs, branch_slice]
+    cases isNil with
+    | true =>
+      simp only [if_true]
+      exact ⟨_, rfl, by rw [lit_nilSlice]; exact parsesTo_null _⟩
+    | false =>
+      simp only [Bool.false_eq_true, if_false, cfgS]
+      cases b with
+      | nil =>
+        simp only [List.isEmpty_nil, if_true, List.map_nil]
+        exact ⟨_, rfl, by rw [lit_emptyArray]; exact parsesTo_arr_empty _⟩
+      | cons c cs =>
+        simp only [List.isEmpty_cons, Bool.false_eq_true, if_false, branch_uint8]
+        refine ⟨_, rfl, ?_⟩
+        rw [lit_arrOpen, lit_arrSep, lit_arrClose]
+        have hall : ∀ l : Bytes, AllParse m.isJS (l.map (fun c => natDigits c.toNat))
+            (l.map (fun c => Data.num (natDigits c.toNat))) := by
+          intro l
+          induction l with
+          | nil => simp [AllParse]
+          | cons x xs ih =>
+            simp only [List.map_cons, AllParse]
+            exact ⟨parsesTo_num _ _ (isNumber_natDigits _) (natDigits_all_numChar _), ih⟩
+        have := parsesTo_arr m.isJS _ _ (hall (c :: cs)) (by simp)
+        simpa using this
   | .array es, h, hf => by
     rw [Shaped] at h
-    rw [finiteFloats] at hf
+    rw [floatsOK] at hf
     rw [showV, abs, branch_array]
     cases es with
     | nil =>
@@ -459,7 +536,7 @@ theorem showV_parses (m : Mode) : ∀ (v : GoVal), Shaped m v → finiteFloats v
       simpa using this
   | .ptr u isNil e, h, hf => by
     rw [Shaped] at h
-    rw [finiteFloats] at hf
+    rw [floatsOK] at hf
     rw [showV, abs]
     cases isNil with
     | true =>
@@ -473,7 +550,7 @@ theorem showV_parses (m : Mode) : ∀ (v : GoVal), Shaped m v → finiteFloats v
         exact showV_parses m e he hf
   | .struct fs vs, h, hf => by
     rw [Shaped] at h
-    rw [finiteFloats] at hf
+    rw [floatsOK] at hf
     rw [showV, abs, branch_struct]
     obtain ⟨S, h1, h2, h3⟩ := showFields_parses m true fs vs h.1 h.2 hf
     rw [h1, h3]
@@ -483,7 +560,7 @@ theorem showV_parses (m : Mode) : ∀ (v : GoVal), Shaped m v → finiteFloats v
     simpa using this
   | .map isNil ks vs, h, hf => by
     rw [Shaped] at h
-    rw [finiteFloats] at hf
+    rw [floatsOK] at hf
     rw [showV, abs, branch_map]
     cases isNil with
     | true =>
@@ -495,20 +572,23 @@ theorem showV_parses (m : Mode) : ∀ (v : GoVal), Shaped m v → finiteFloats v
       · simp only [Bool.false_eq_true, if_false]
         have : (ks.length != vs.length) = false := by simp [hl]
         simp only [this, Bool.false_eq_true, if_false]
-        obtain ⟨rs, h1, h2⟩ := showList_parses m vs hs hf
+        rw [keyStrings_eq ks hs.1]
+        obtain ⟨rs, h1, h2⟩ := showList_parses m vs hs.2 hf
+        simp only [ok_bind]
         rw [h1]
         refine ⟨_, rfl, ?_⟩
-        obtain ⟨z1, z2, z3⟩ := zip3 m.isJS ks rs _ h2
-        have e1 : sortPairs (ks.zip rs) = (sortByKey (ks.zip (rs.zip (absList cfgS m vs)))).map Triple.kt := by
+        obtain ⟨z1, z2, z3⟩ := zip3 m.isJS (ks.map keySpec) rs _ h2
+        have e1 : sortPairs ((ks.map keySpec).zip rs)
+            = (sortByKey ((ks.map keySpec).zip (rs.zip (absList cfgS m vs)))).map Triple.kt := by
           unfold sortPairs
           rw [← z1, kt_eq, sortByKey_map]
-        have e2 : sortByKey (ks.zip (absList cfgS m vs))
-            = (sortByKey (ks.zip (rs.zip (absList cfgS m vs)))).map Triple.kd := by
+        have e2 : sortByKey ((ks.map keySpec).zip (absList cfgS m vs))
+            = (sortByKey ((ks.map keySpec).zip (rs.zip (absList cfgS m vs)))).map Triple.kd := by
           rw [← z2, kd_eq, sortByKey_map]
         rw [e1, e2, lit_mapOpen, lit_mapClose]
         unfold joinMembers
         rw [lit_mapFirst, lit_mapNext, lit_mapColon]
-        have := parsesTo_obj_triples m.isJS (sortByKey (ks.zip (rs.zip (absList cfgS m vs))))
+        have := parsesTo_obj_triples m.isJS (sortByKey ((ks.map keySpec).zip (rs.zip (absList cfgS m vs))))
           (fun z hz => z3 z (mem_sortByKey z _ hz))
         simpa using this
   | .other k name, h, _ => by
@@ -529,12 +609,12 @@ theorem showV_parses (m : Mode) : ∀ (v : GoVal), Shaped m v → finiteFloats v
       have := parsesTo_undefined (jsCommentHead ++ name ++ jsCommentTail) hb
       simpa using this
 
-theorem showList_parses (m : Mode) : ∀ (vs : List GoVal), ShapedL m vs → finiteFloatsL vs = true →
+theorem showList_parses (m : Mode) : ∀ (vs : List GoVal), ShapedL m vs → floatsOKL m vs = true →
     ∃ rs, showList m vs = .ok rs ∧ AllParse m.isJS rs (absList cfgS m vs)
   | [], _, _ => ⟨[], by rw [showList], by rw [absList]; trivial⟩
   | v :: vs, h, hf => by
     rw [ShapedL] at h
-    rw [finiteFloatsL, Bool.and_eq_true] at hf
+    rw [floatsOKL, Bool.and_eq_true] at hf
     obtain ⟨r, h1, h2⟩ := showV_parses m v h.1.2 hf.1
     obtain ⟨rs, h3, h4⟩ := showList_parses m vs h.2 hf.2
     refine ⟨r :: rs, ?_, ?_⟩
@@ -542,19 +622,19 @@ theorem showList_parses (m : Mode) : ∀ (vs : List GoVal), ShapedL m vs → fin
     · rw [absList]; exact ⟨h2, h4⟩
 
 theorem showFields_parses (m : Mode) : ∀ (first : Bool) (fs : List Field) (vs : List GoVal),
-    fs.length = vs.length → ShapedL m vs → finiteFloatsL vs = true →
+    fs.length = vs.length → ShapedL m vs → floatsOKL m vs = true →
     ∃ S : List Triple, showFields m first fs vs = .ok (joinKV' first (S.map Triple.kt)) ∧
       (∀ z ∈ S, ParsesTo m.isJS z.2.1 z.2.2) ∧ absFields cfgS m fs vs = S.map Triple.kd
   | first, [], [], _, _, _ => ⟨[], by simp [showFields, joinKV'_nil], by simp, by simp [absFields]⟩
   | first, f :: fs, v :: vs, hl, h, hf => by
     rw [ShapedL] at h
-    rw [finiteFloatsL, Bool.and_eq_true] at hf
+    rw [floatsOKL, Bool.and_eq_true] at hf
     have hl' : fs.length = vs.length := by simpa using hl
-    rw [showFields, absFields]
+    rw [showFields, absFields_scriggo_cons]
     by_cases he : f.exported = true
     · simp only [he, Bool.not_true, Bool.false_eq_true, if_false]
       rw [fieldDecision_eq f v he h.1.1]
-      cases hn : fieldName f v with
+      cases hn : fieldName false f v with
       | none =>
         simp only []
         exact showFields_parses m first fs vs hl' h.2 hf.2
@@ -571,10 +651,10 @@ theorem showFields_parses (m : Mode) : ∀ (first : Bool) (fs : List Field) (vs 
           rcases hz with hz | hz
           · subst hz; exact h2
           · exact h4 z hz
-        · simp only [cfgS, Bool.false_and, Bool.false_eq_true, if_false, List.map_cons, Triple.kd]
+        · simp only [List.map_cons, Triple.kd]
           rw [← h5]
     · have he' : f.exported = false := by simpa using he
-      have hn : fieldName f v = none := by unfold fieldName; simp [he']
+      have hn : fieldName false f v = none := by unfold fieldName; simp [he']
       simp only [he', Bool.not_false, if_true, hn]
       exact showFields_parses m first fs vs hl' h.2 hf.2
   | _, [], _ :: _, hl, _, _ => by simp at hl
